@@ -12,7 +12,7 @@ theorem simA_step {fuel : Nat} (env : Env P bodies) (ihB : SimB fo host P bodies
     SimA fo host P bodies (fuel + 1) := by
   intro cur instr useRight f x st res st' h pcA rs vs fr hlt
   have hlt' : ¬ (P.instrs.size ≤ pcA + 1) := by omega
-  simp only [applyVals] at h
+  simp only [applyValsS] at h
   simp only [applyStep]
   cases hk : applyKind fo instr useRight f x with
   | enter j input =>
@@ -24,7 +24,7 @@ theorem simA_step {fuel : Nat} (env : Env P bodies) (ihB : SimB fo host P bodies
       obtain ⟨t, hjt, hloc, hwf, hend⟩ := env.body j body hb
       have hsz := lt_size_of_get hend
       have hpos := len_pos body
-      cases he : evalBody fo host bodies j fuel body { st with inp := input } with
+      cases he : evalBodyS fo host bodies j fuel body { st with inp := input } with
       | err e => simp [he] at h
       | fuelOut => simp [he] at h
       | ok p =>
@@ -62,7 +62,7 @@ theorem simB_step {fuel : Nat} (ih : SimE fo host P bodies fuel) (ihB : SimB fo 
     SimB fo host P bodies (fuel + 1) := by
   intro cur body st v st' h t rs vs fr hloc hwf hjt hlt
   have hpos := len_pos body
-  simp only [evalBody] at h
+  simp only [evalBodyS] at h
   rcases eval_cases (fo := fo) (host := host) (bodies := bodies) (cur := cur) (fuel := fuel) (x := body) (st := st)
     with ⟨w, st1, hx⟩ | ⟨w, st1, hx⟩ | ⟨e, hx⟩ | hx <;> simp only [hx] at h
   · simp only [Out.ok.injEq, Prod.mk.injEq] at h
@@ -77,7 +77,8 @@ theorem simB_step {fuel : Nat} (ih : SimE fo host P bodies fuel) (ihB : SimB fo 
   · simp at h
 
 theorem simE_step {fuel : Nat} (ih : SimE fo host P bodies fuel) (ihL : SimL fo host P bodies fuel)
-    (ihC : SimC fo host P bodies fuel) (ihA : SimA fo host P bodies fuel) : SimE fo host P bodies (fuel + 1) := by
+    (ihC : SimC fo host P bodies fuel) (ihA : SimA fo host P bodies fuel) (ihCN : SimCN fo host P bodies fuel) :
+    SimE fo host P bodies (fuel + 1) := by
   intro e
   cases e with
   | lit v => exact sim_lit v
@@ -89,7 +90,7 @@ theorem simE_step {fuel : Nat} (ih : SimE fo host P bodies fuel) (ihL : SimL fo 
   | applyTo x f => exact sim_applyTo ih ihA x f
   | list items => exact sim_list ihL items
   | cond onTrue c t => exact sim_cond ih onTrue c t
-  | chain arms final => exact sim_chain ihC arms final
+  | chain arms final => exact sim_chain ihC ihCN arms final
   | and l r => exact sim_and ih l r
   | or l r => exact sim_or ih l r
   | seq a b => exact sim_seq ih a b
@@ -101,29 +102,31 @@ theorem simE_step {fuel : Nat} (ih : SimE fo host P bodies fuel) (ihL : SimL fo 
   | suffixApply x sym => exact sim_suffixApply ih ihA x sym
   | infixApply a sym b => exact sim_infixApply ih ihA a sym b
 
-/-- `run_located`: all five simulation statements, for every fuel -/
+/-- `run_located`: all six simulation statements (for the strict evaluator), for every fuel -/
 theorem sim_all (fo : FloatOps F) (host : Host F) {P : Prog F} {bodies : List (Nat × Expr F)} (env : Env P bodies) :
     ∀ fuel, SimE fo host P bodies fuel ∧ SimL fo host P bodies fuel ∧ SimC fo host P bodies fuel ∧
-      SimA fo host P bodies fuel ∧ SimB fo host P bodies fuel := by
+      SimA fo host P bodies fuel ∧ SimB fo host P bodies fuel ∧ SimCN fo host P bodies fuel := by
   intro fuel
   induction fuel with
   | zero =>
-    refine ⟨?_, ?_, ?_, ?_, ?_⟩
-    · intro e cur st res st' h; simp [evalF] at h
-    · intro cur items st acc r st' h; simp [evalList] at h
-    · intro cur arms fe st res st' h; simp [evalChain] at h
-    · intro cur instr useRight f x st res st' h; simp [applyVals] at h
-    · intro cur body st v st' h; simp [evalBody] at h
+    refine ⟨?_, ?_, ?_, ?_, ?_, ?_⟩
+    · intro e cur st res st' h; simp [evalFS] at h
+    · intro cur items st acc r st' h; simp [evalListS] at h
+    · intro cur arms fe st res st' h; simp [evalChainS] at h
+    · intro cur instr useRight f x st res st' h; simp [applyValsS] at h
+    · intro cur body st v st' h; simp [evalBodyS] at h
+    · intro cur arms st res st' h; simp [evalChainS] at h
   | succ fuel ih =>
-    obtain ⟨ihE, ihL, ihC, ihA, ihB⟩ := ih
-    exact ⟨simE_step ihE ihL ihC ihA, simL_step ihE ihL, simC_step ihE ihC, simA_step env ihB, simB_step ihE ihB⟩
+    obtain ⟨ihE, ihL, ihC, ihA, ihB, ihCN⟩ := ih
+    exact ⟨simE_step ihE ihL ihC ihA ihCN, simL_step ihE ihL, simC_step ihE ihC, simA_step env ihB, simB_step ihE ihB,
+      simCN_step ihE ihCN⟩
 
 /-- `run_located` for one expression, in the form of DESIGN §6 C01 (ii) -/
 theorem run_located (fo : FloatOps F) (host : Host F) {P : Prog F} {bodies : List (Nat × Expr F)} (env : Env P bodies)
     {fuel cur : Nat} {e : Expr F} {st st' : St F} {res : Res F}
-    (h : evalF fo host bodies cur fuel e st = .ok (res, st'))
+    (h : evalFS fo host bodies cur fuel e st = .ok (res, st'))
     {root pc entry : Nat} (rs vs : List (Val F)) (fr : List (Frame F))
-    (hloc : Located P root cur pc e) (hwf : wfE e = true) (hen : root = cur ∨ enFree e = true)
+    (hloc : Located P root cur pc e) (hwf : wfC e = true) (hen : root = cur ∨ enFree e = true)
     (hj : P.jumps[cur]? = some entry) (hent : entry < P.instrs.size) (hlt : pc + len e < P.instrs.size) :
     ResOK fo host P entry pc (pc + len e) (tailR e) rs vs fr st res st' :=
   (sim_all fo host env fuel).1 e cur st res st' h root pc rs vs fr entry hloc hwf hen hj hent hlt
@@ -133,14 +136,14 @@ the only input value halts with `v` as the current value, nothing else on any st
 theorem run_program (fo : FloatOps F) (host : Host F) {P : Prog F} {p : Program F} (env : Env P p.bodies)
     (hmain : lookupBody p.bodies 0 = some p.main) (htail : tailR p.main = true)
     {fuel : Nat} {input v : Val F} {st : St F}
-    (h : evalProgram fo host fuel p input = .ok (v, st)) :
+    (h : evalProgramS fo host fuel p input = .ok (v, st)) :
     ∃ t n s, P.jumps[0]? = some t ∧
       run fo host P n { pc := t, regs := [], vals := [input], frames := [], trace := [] } = (.halted s, n) ∧
       s.vals = [v] ∧ s.regs = [] ∧ s.frames = [] ∧ s.trace = st.trace := by
   obtain ⟨t, hjt, hloc, hwf, hend⟩ := env.body 0 p.main hmain
   have hsz := lt_size_of_get hend
-  simp only [evalProgram] at h
-  obtain ⟨rs', hr, he⟩ := (sim_all fo host env fuel).2.2.2.2 0 p.main ⟨input, []⟩ v st h t [] [] [] hloc hwf hjt hsz
+  simp only [evalProgramS] at h
+  obtain ⟨rs', hr, he⟩ := (sim_all fo host env fuel).2.2.2.2.1 0 p.main ⟨input, []⟩ v st h t [] [] [] hloc hwf hjt hsz
   rw [he htail] at hr
   obtain ⟨n, hn⟩ := hr.run_halts (step_endExpression_halt hend)
   exact ⟨t, n, _, hjt, hn, rfl, rfl, rfl, rfl⟩
